@@ -11,6 +11,7 @@ import (
 	"strings"
 
 	"github.com/Trendyol/go-dcp/config"
+	"github.com/Trendyol/go-dcp/couchbase"
 	"github.com/Trendyol/go-dcp/helpers"
 	"github.com/Trendyol/go-dcp/logger"
 	"github.com/Trendyol/go-dcp/stream"
@@ -132,6 +133,52 @@ func chunk(in, out string, allMembersUpTo int) {
 	fmt.Println(string(b))
 }
 
+// version: table lines "M m p b  M m p b  rendering-of-a"; plus malformed strings
+func version(in, out string) {
+	f, _ := os.Open(in)
+	defer f.Close()
+	o, _ := os.Create(out)
+	defer o.Close()
+	w := bufio.NewWriterSize(o, 1<<20)
+	defer w.Flush()
+	sc := bufio.NewScanner(f)
+	n := 0
+	gates := func(v *couchbase.Version) [3]bool {
+		// the expressions of dcp.go newDcp (expiry opcode, change streams) and stream.NewStream (serial close)
+		return [3]bool{v.Higher(couchbase.SrvVer650) || v.Equal(couchbase.SrvVer650),
+			v.Higher(couchbase.SrvVer720) || v.Equal(couchbase.SrvVer720), v.Lower(couchbase.SrvVer550)}
+	}
+	for sc.Scan() {
+		var a, b [4]int
+		var s string
+		if _, err := fmt.Sscan(sc.Text(), &a[0], &a[1], &a[2], &a[3], &b[0], &b[1], &b[2], &b[3], &s); err != nil {
+			continue
+		}
+		va := &couchbase.Version{Major: a[0], Minor: a[1], Patch: a[2], Build: a[3]}
+		vb := &couchbase.Version{Major: b[0], Minor: b[1], Patch: b[2], Build: b[3]}
+		pa := []int{}
+		if pv, err := couchbase.VerifParseVersion(s); err == nil && pv != nil {
+			pa = []int{pv.Major, pv.Minor, pv.Patch, pv.Build}
+		}
+		line, _ := json.Marshal(map[string]any{"a": a, "b": b, "h": va.Higher(vb), "e": va.Equal(vb), "l": va.Lower(vb),
+			"hr": vb.Higher(va), "ga": gates(va), "gb": gates(vb), "pa": pa})
+		w.Write(line)
+		w.WriteByte('\n')
+		n++
+	}
+	// malformed and partial strings: expected results are those of Parse in Version.tla (see lib/funcheck.py)
+	res := map[string]any{}
+	for _, s := range strings.Split(os.Getenv("VERIF_VERSION_STRINGS"), "|") {
+		if pv, err := couchbase.VerifParseVersion(s); err == nil && pv != nil {
+			res[s] = []int{pv.Major, pv.Minor, pv.Patch, pv.Build}
+		} else {
+			res[s] = "err"
+		}
+	}
+	b, _ := json.Marshal(map[string]any{"summary": true, "pairs": n, "strings": res})
+	fmt.Println(string(b))
+}
+
 func main() {
 	what := flag.String("what", "", "chunk | ...")
 	in := flag.String("in", "", "input table")
@@ -142,6 +189,8 @@ func main() {
 	switch strings.ToLower(*what) {
 	case "chunk":
 		chunk(*in, *out, *all)
+	case "version":
+		version(*in, *out)
 	default:
 		fmt.Fprintln(os.Stderr, "unknown -what")
 		os.Exit(2)
